@@ -41,6 +41,8 @@ import XdslModel.RawScan
 import XdslModel.SsaNames
 import XdslModel.X86Rules
 import XdslModel.SSADom
+import XdslModel.DCEMini
+import XdslModel.RegAllocLoop
 /-!
 Model registry for the driver: `MODEL <name>` selects a `(state, lineStep)` pair.
 A continuation-passing encoding is used because the state types differ.
@@ -97,6 +99,8 @@ def run? (name : String) : Option Runner :=
   | "ssa_names" => some fun k => k SsaNames.lineStep {}
   | "x86_rules" => some fun k => k X86.Lower.lineStep ()
   | "ssa_dom" => some fun k => k SSADom.lineStep ()
+  | "dcemini" => some fun k => k DCEM.lineStep {}
+  | "regalloc_loop" => some fun k => k RegAllocLoop.lineStep ()
   | _ => none
 
 end Xdsl.Registry
